@@ -55,8 +55,30 @@ Theorem awaited_iff_registered_before_completion :
 Proof. intros history. apply register_awaited. Qed.
 Print Assumptions awaited_iff_registered_before_completion.
 
+(* the listener stops only because it observed the submission, and the submission reaches every
+   subscriber at once: whenever a session has lost its feed it has been notified too. Then, whatever the
+   scheduler does (the order in which listener and session run, the branch an unbiased select would
+   prefer), the session winds down with a goodbye (GOAWAY / QUIC close), never abruptly *)
+Theorem notified_session_says_goodbye :
+  forall notified feed_lost coin,
+    (feed_lost = true -> notified = true) ->
+    session_poll SESSIONS_SAY_GOODBYE_WHEN_FEED_STOPS notified feed_lost coin <> Abrupt
+    /\ (notified = true -> session_poll SESSIONS_SAY_GOODBYE_WHEN_FEED_STOPS notified feed_lost coin = Goodbye).
+Proof.
+  intros notified feed_lost coin H. change SESSIONS_SAY_GOODBYE_WHEN_FEED_STOPS with true.
+  destruct notified, feed_lost; cbn; try (split; [discriminate|]; intros; try reflexivity; try discriminate).
+  exfalso. specialize (H eq_refl). discriminate H.
+Qed.
+Print Assumptions notified_session_says_goodbye.
+
+(* the defect this exposed: with an unbiased select a QUIC session whose listener stopped first ends with
+   an error and never sends its close *)
+Example ex_unbiased_select_can_end_abruptly : session_poll false true true false = Abrupt.
+Proof. reflexivity. Qed.
+
 Theorem code_facts :
-  SHUTDOWN_CHANNELS_AS_MODELLED = true /\ SHUTDOWN_WAIT_AS_MODELLED = true /\ SHUTDOWN_PARTICIPANTS_REGISTER_BOTH = true.
+  SHUTDOWN_CHANNELS_AS_MODELLED = true /\ SHUTDOWN_WAIT_AS_MODELLED = true /\ SHUTDOWN_PARTICIPANTS_REGISTER_BOTH = true
+  /\ SESSIONS_SAY_GOODBYE_WHEN_FEED_STOPS = true.
 Proof. repeat split; exact eq_refl. Qed.
 Print Assumptions code_facts.
 
